@@ -100,3 +100,156 @@ theorem filtered_strip_forestU (m : Method) (dropd : Bool) (u : Str) (hu : u ≠
   simp [filtered, preFlat, emptyTag_flattenList ns hok, wsFilter_forestQ _ ns hok, this]
 
 end Genshi.Output
+
+namespace Genshi.Output
+open Genshi Genshi.Escape Genshi.Reader
+
+/-! ### with a doctype option: `DocTypeInserter` looks at the first event only -/
+
+/-- the first node is an element or a text / comment / PI / DOCTYPE leaf (or there is none) -/
+def goodHead : List Node → Bool
+  | [] => true
+  | .elem _ _ _ :: _ => true
+  | .leaf (.text _ _) :: _ => true
+  | .leaf (.comment _) :: _ => true
+  | .leaf (.pi _ _) :: _ => true
+  | .leaf (.doctype _ _ _) :: _ => true
+  | _ => false
+
+theorem notXdHead_goodHead (u : Str) (s : Bool) (X : List Node) (h : goodHead X = true) :
+    notXdHead (forestFu u s X) = true := by
+  cases X with
+  | nil => rfl
+  | cons n rest =>
+    cases n with
+    | elem t a ks =>
+      cases ks <;> simp [forestFu, treeFu, notXdHead]
+    | leaf e => cases e <;> simp [goodHead] at h <;> simp [forestFu, treeFu, leafF, notXdHead]
+
+theorem wsFlushN_pending (norm : Bool → Str → Str) (st : WsSt) (h : st.textbuf ≠ []) :
+    ∃ x, wsFlushN norm st = [.leaf (.text x true)] := by
+  unfold wsFlushN
+  have : st.textbuf.isEmpty = false := by simpa using h
+  simp [this]
+
+theorem wsTreeG_nontext (norm : Bool → Str → Str) (cfg : WsCfg) (st : WsSt) (n : Node)
+    (h : ∀ s f, n ≠ .leaf (.text s f)) : ∃ y, (wsTreeG norm cfg st n).1 = wsFlushN norm st ++ [y] := by
+  cases n with
+  | elem t a ks => cases ks <;> simp [wsTreeG]
+  | leaf e => cases e <;> first | exact absurd rfl (h _ _) | simp [wsTreeG]
+
+/-- pending text comes out first -/
+theorem wsForestG_pending_first (norm : Bool → Str → Str) (cfg : WsCfg) : ∀ (ns : List Node) (st : WsSt),
+    st.textbuf ≠ [] →
+    ∃ x rest, (wsForestG norm cfg st ns).1 ++ wsFlushN norm (wsForestG norm cfg st ns).2 = .leaf (.text x true) :: rest
+  | [], st, h => by
+      obtain ⟨x, hx⟩ := wsFlushN_pending norm st h
+      exact ⟨x, [], by simp [wsForestG, hx]⟩
+  | n :: ns, st, h => by
+      simp only [wsForestG]
+      by_cases ht : ∃ s f, n = .leaf (.text s f)
+      · obtain ⟨s, f, rfl⟩ := ht
+        have := wsForestG_pending_first norm cfg ns
+          { st with textbuf := st.textbuf ++ [(s, f || st.noescape || st.inCdata)] } (by simp)
+        simpa [wsTreeG] using this
+      · have hn : ∀ s f, n ≠ .leaf (.text s f) := fun s f e => ht ⟨s, f, e⟩
+        obtain ⟨y, hy⟩ := wsTreeG_nontext norm cfg st n hn
+        obtain ⟨x, hx⟩ := wsFlushN_pending norm st h
+        rw [hy, hx]
+        exact ⟨x, _, rfl⟩
+
+theorem normTreeA_nontext (m : Method) (p : Bool) (b : Option Str) (n : Node)
+    (h : ∀ s f, n ≠ .leaf (.text s f)) : ∃ y, (normTreeA m p b n).1 = flushS p b ++ [y] := by
+  cases n with
+  | elem t a ks => cases ks <;> simp [normTreeA]
+  | leaf e => cases e <;> first | exact absurd rfl (h _ _) | simp [normTreeA]
+
+theorem normForestA_pending_first (m : Method) (p : Bool) : ∀ (ns : List Node) (b : Str),
+    ∃ x rest, (normForestA m p (some b) ns).1 ++ flushS p (normForestA m p (some b) ns).2 = .leaf (.text x false) :: rest
+  | [], b => ⟨_, [], rfl⟩
+  | n :: ns, b => by
+      simp only [normForestA]
+      by_cases ht : ∃ s f, n = .leaf (.text s f)
+      · obtain ⟨s, f, rfl⟩ := ht
+        have := normForestA_pending_first m p ns (b ++ s)
+        simpa [normTreeA] using this
+      · have hn : ∀ s f, n ≠ .leaf (.text s f) := fun s f e => ht ⟨s, f, e⟩
+        obtain ⟨y, hy⟩ := normTreeA_nontext m p (some b) n hn
+        rw [hy]
+        exact ⟨_, _, rfl⟩
+
+/-- a forest of the domain that does not begin with an XML declaration: neither does what the
+    filter makes of it -/
+theorem goodHead_wsForest (m : Method) (n : Node) (rest : List Node) (hd : wsDom m (n :: rest) = true)
+    (hx : ∀ v e s, n ≠ .leaf (.xmlDecl v e s)) : goodHead (wsForest (wsCfg m) (n :: rest)) = true := by
+  simp only [wsDom, wsDomF, Bool.and_eq_true] at hd
+  by_cases ht : ∃ s f, n = .leaf (.text s f)
+  · obtain ⟨s, f, rfl⟩ := ht
+    obtain ⟨x, r, hxr⟩ := wsForestG_pending_first stdNorm (wsCfg m) rest
+      { ({} : WsSt) with textbuf := ([] : List (Str × Bool)) ++ [(s, f || false || false)] } (by simp)
+    have : wsForest (wsCfg m) (.leaf (.text s f) :: rest) = .leaf (.text x true) :: r := by
+      simpa [wsForest, wsForestG, wsTreeG] using hxr
+    rw [this]; rfl
+  · have hn : ∀ s f, n ≠ .leaf (.text s f) := fun s f e => ht ⟨s, f, e⟩
+    cases n with
+    | elem t a ks => cases ks <;> simp [wsForest, wsForestG, wsTreeG, wsFlushN, goodHead]
+    | leaf e =>
+      cases e <;> first
+        | exact absurd rfl (hn _ _)
+        | exact absurd rfl (hx _ _ _)
+        | (simp [wsDomT] at hd; done)
+        | simp [wsForest, wsForestG, wsTreeG, wsFlushN, goodHead]
+
+theorem goodHead_normForest (m : Method) (n : Node) (rest : List Node) (hd : wsDom m (n :: rest) = true)
+    (hx : ∀ v e s, n ≠ .leaf (.xmlDecl v e s)) : goodHead (normForest m (n :: rest)) = true := by
+  simp only [wsDom, wsDomF, Bool.and_eq_true] at hd
+  by_cases ht : ∃ s f, n = .leaf (.text s f)
+  · obtain ⟨s, f, rfl⟩ := ht
+    obtain ⟨x, r, hxr⟩ := normForestA_pending_first m false rest s
+    have : normForest m (.leaf (.text s f) :: rest) = .leaf (.text x false) :: r := by
+      simpa [normForest, normForestA, normTreeA] using hxr
+    rw [this]; rfl
+  · have hn : ∀ s f, n ≠ .leaf (.text s f) := fun s f e => ht ⟨s, f, e⟩
+    cases n with
+    | elem t a ks => cases ks <;> simp [normForest, normForestA, normTreeA, flushS, goodHead]
+    | leaf e =>
+      cases e <;> first
+        | exact absurd rfl (hn _ _)
+        | exact absurd rfl (hx _ _ _)
+        | (simp [wsDomT] at hd; done)
+        | simp [normForest, normForestA, normTreeA, flushS, goodHead]
+
+theorem wsForest_xmlDecl (cfg : WsCfg) (v : Str) (e : Option Str) (s : Int) (rest : List Node) :
+    wsForest cfg (.leaf (.xmlDecl v e s) :: rest) = .leaf (.xmlDecl v e s) :: wsForest cfg rest := by
+  simp [wsForest, wsForestG, wsTreeG, wsFlushN, ofEvent, wsUpdate]
+
+theorem normForest_xmlDecl (m : Method) (v : Str) (e : Option Str) (s : Int) (rest : List Node) :
+    normForest m (.leaf (.xmlDecl v e s) :: rest) = .leaf (.xmlDecl v e s) :: normForest m rest := by
+  simp [normForest, normForestA, normTreeA, flushS]
+
+/-- the main loop behind `DocTypeInserter` -/
+theorem serSpec_ws_dt_eq (m : Method) (o : Opts) (u : Str) (dopt : Option DocTypeT) (ns : List Node)
+    (hd : wsDom m ns = true) :
+    serSpec m o {} (withDoctype dopt (forestFu u false (wsForest (wsCfg m) ns))) =
+      serSpec m o {} (withDoctype dopt (forestFu u false (normForest m ns))) := by
+  cases dopt with
+  | none => exact serSpec_ws_eq m o u {} rfl ns hd
+  | some d =>
+    simp only [withDoctype]
+    cases ns with
+    | nil => rfl
+    | cons n rest =>
+      by_cases hx : ∃ v e s, n = .leaf (.xmlDecl v e s)
+      · obtain ⟨v, e, s, rfl⟩ := hx
+        have hd' : wsDom m rest = true := by
+          simp only [wsDom, wsDomF, Bool.and_eq_true] at hd; exact hd.2
+        rw [wsForest_xmlDecl, normForest_xmlDecl]
+        simp only [forestFu, treeFu, leafF, Option.toList_some, List.singleton_append, docTypeInsert, serSpec]
+        rw [serSpec_ws_eq m o u _ (by simp only [ctxAfter]; split <;> rfl) rest hd']
+      · have hx' : ∀ v e s, n ≠ .leaf (.xmlDecl v e s) := fun v e s h => hx ⟨v, e, s, h⟩
+        rw [docTypeInsert_notXd d _ (notXdHead_goodHead u false _ (goodHead_wsForest m n rest hd hx')),
+          docTypeInsert_notXd d _ (notXdHead_goodHead u false _ (goodHead_normForest m n rest hd hx'))]
+        simp only [serSpec]
+        rw [serSpec_ws_eq m o u _ rfl (n :: rest) hd]
+
+end Genshi.Output
